@@ -20,6 +20,8 @@ structure BatchInv (cfg : Cfg) (den : Key → α) (rest : List (Key × α)) (s :
   preIff : ∀ k, k ∈ preKeys s.log ↔ k ∈ s.st.running ∨ k ∈ s.st.finished
   postNodup : (postKeys s.log).Nodup
   postIff : ∀ k, k ∈ postKeys s.log ↔ k ∈ s.st.finished
+  preSnap : ∀ e ∈ s.log, ∀ k, e.1 = Ev.pretask k → ∀ d ∈ e.2.depsOf k, e.2.cache.get? d = some (den d)
+  noFinish : ∀ e ∈ s.log, ∀ b, e.1 ≠ Ev.finish b
 
 abbrev SysInv (cfg : Cfg) (den : Key → α) (s : Sys α) : Prop := BatchInv cfg den [] s
 
@@ -51,7 +53,7 @@ theorem fire_spec {cfg : Cfg} (P : Params α) {den : Key → α} (hden : IsDen c
     (hnw : 1 ≤ cfg.nw) (hcs : cfg.cs = -1 ∨ 1 ≤ cfg.cs) {s : Sys α} (h : SysInv cfg den s) :
     ∃ s', fireTasks cfg P s = .ok s' ∧ SysInv cfg den s' ∧
       s'.st.finished = s.st.finished ∧ s'.st.waiting = s.st.waiting ∧ s'.st.cache = s.st.cache ∧
-      s'.st.released = s.st.released ∧
+      s'.st.released = s.st.released ∧ s'.st.dependencies = s.st.dependencies ∧
       (∃ n, s'.st.ready = s.st.ready.drop n ∧ ∀ j, j ∈ s'.st.running ↔ j ∈ s.st.running ∨ j ∈ s.st.ready.take n) ∧
       (∃ bs, s'.pending = s.pending ++ bs) ∧
       (s.st.running = [] → s.st.ready ≠ [] → s'.pending ≠ []) := by
@@ -108,13 +110,13 @@ theorem fire_spec {cfg : Cfg} (P : Params α) {den : Key → α} (hden : IsDen c
     exact_mod_cast hnble
   have hflat : (batches cs'.toNat nb.toNat ([] ++ args')).flatten = [] ++ args' :=
     batches_flatten _ _ _ (by omega) hbl
-  have hpost' : postKeys log' = [] := postKeys_of_pretasks log' hev
+  have hpost' : postKeys log' = [] := postKeys_of_pretasks log' (fun e he => (hev e he).imp fun _ hk => hk.1)
   have htake_sub : ∀ j, j ∈ s.st.ready.take ntasks.toNat → j ∈ s.st.ready := fun j hj => List.mem_of_mem_take hj
   have hbne := batches_nonempty cs'.toNat nb.toNat ([] ++ args')
   generalize hbs : batches cs'.toNat nb.toNat ([] ++ args') = bs at hflat hbne
   simp only [List.nil_append] at hflat
   refine ⟨{ st := s1, pending := s.pending ++ bs, log := (s.log ++ log') ++ bs.map (fun b => (Ev.submit (b.map (·.1)), s1)) },
-    ?_, ?_, c2, c4, c1, c3, ⟨ntasks.toNat, hready, hrun⟩, ⟨_, rfl⟩, ?_⟩
+    ?_, ?_, c2, c4, c1, c3, c5, ⟨ntasks.toNat, hready, hrun⟩, ⟨_, rfl⟩, ?_⟩
   · unfold fireTasks
     simp only []
     rw [hsel]
@@ -129,7 +131,7 @@ theorem fire_spec {cfg : Cfg} (P : Params α) {den : Key → α} (hden : IsDen c
       simp [hargs]
     have hrunS : ∀ k, k ∈ pendKeys s ↔ k ∈ s.st.running := by
       intro k; have := h.running k; simpa using this
-    refine ⟨hinv1, ?_, ?_, ?_, ?_, ?_, ?_, ?_, ?_, ?_, ?_⟩
+    refine ⟨hinv1, ?_, ?_, ?_, ?_, ?_, ?_, ?_, ?_, ?_, ?_, ?_, ?_⟩
     · intro d v hv; exact h.sound d v (by rw [← c1]; exact hv)
     · rw [hpk]
       simp only [List.map_nil, List.append_nil]
@@ -179,6 +181,30 @@ theorem fire_spec {cfg : Cfg} (P : Params α) {den : Key → α} (hden : IsDen c
       show k ∈ postKeys ((s.log ++ log') ++ _) ↔ _
       rw [postKeys_append, postKeys_append, postKeys_submits, hpost', c2]
       simpa using h.postIff k
+    · intro e he k hk
+      show ∀ d ∈ e.2.depsOf k, _
+      have he' : e ∈ (s.log ++ log') ++ bs.map (fun b => (Ev.submit (b.map (·.1)), s1)) := he
+      rcases List.mem_append.mp he' with he1 | he1
+      · rcases List.mem_append.mp he1 with he2 | he2
+        · exact h.preSnap e he2 k hk
+        · obtain ⟨k', hk', hsnap⟩ := hev e he2
+          rw [hk'] at hk
+          cases hk
+          exact hsnap
+      · obtain ⟨b, _, hb⟩ := List.mem_map.mp he1
+        rw [← hb] at hk
+        cases hk
+    · intro e he b hk
+      have he' : e ∈ (s.log ++ log') ++ bs.map (fun b => (Ev.submit (b.map (·.1)), s1)) := he
+      rcases List.mem_append.mp he' with he1 | he1
+      · rcases List.mem_append.mp he1 with he2 | he2
+        · exact h.noFinish e he2 b hk
+        · obtain ⟨k', hk', _⟩ := hev e he2
+          rw [hk'] at hk
+          cases hk
+      · obtain ⟨b', _, hb⟩ := List.mem_map.mp he1
+        rw [← hb] at hk
+        cases hk
   · intro hrun0 hr0
     have h1 := hprog hrun0 hr0
     show s.pending ++ bs ≠ []
